@@ -54,7 +54,7 @@ CHECKS = {
    note="Width is measured as the wrapper measures it (UTF-8 bytes, a tab counts one)."),
  "C12": dict(
    technique="runtime monitoring: value oracle on literals whose text and value are known by construction (literal product x carrier programs x configurations), located in the output by non-blank ordinal (by value when ordinals cannot be aligned)",
-   text="Exploration over the literal product x 19 carriers x configurations.",
+   text="Exploration over the literal product x 29 carriers x configurations.",
    note="Trusted: generator-computed values; whitespace-only lines that are not a prefix of the closing indentation are not generated (the property text is ambiguous about them)."),
  "C13": dict(
    technique="runtime monitoring: structural oracle on DelphiLexer::lex output, boundaries known by construction for the word-length x alignment x delimiter product, direct differential of the vectorised and portable identifier routines (hook), whole-lexer differential with the portable routine forced, reference-scanner comparison of boundaries/kinds/keyword recognition; Miri and ASan passes in the thorough tier",
